@@ -176,9 +176,15 @@ func v20FreeRun(idx int, out *vOut) {
 	defer cancel()
 	runDone := make(chan struct{})
 	var runErr error
+	runPanic := ""
 	go func() {
+		defer close(runDone)
+		defer func() {
+			if r := recover(); r != nil {
+				runPanic = fmt.Sprint(r)
+			}
+		}()
 		runErr = col.Run(ctx)
-		close(runDone)
 	}()
 	fails := [][2]string{}
 	fail := func(kind, detail string) { fails = append(fails, [2]string{kind, detail}) }
@@ -258,6 +264,10 @@ func v20FreeRun(idx int, out *vOut) {
 		cls = v20ErrClass(runErr)
 	}
 	stop := cls == 1 || cls == 7
+	if returned && runPanic != "" {
+		fail("run-panics", "Run panicked (the process would crash): "+runPanic)
+		returned = false
+	}
 	v20LogOracle(fail, log, provShutBy, 1+w.nAux, returned, stop, runErr, col.GetState())
 	if returned && !stop && v20ChanClosed(col) && col.GetState() == StateRunning {
 		fail("stop-not-closed", "Run returned with the state at Running")
